@@ -593,6 +593,41 @@ def name_sources(ex, lib, unrec):
     return res, facts
 
 
+def box_pin_rule(ex, unrec):
+    """AsyncInfo::from_fn: the callee of the tail call is recognised by `path_to_string(path).ends_with("<suffix>")`;
+    path_to_string joins the segment identifiers with `::`.  Also: a bare `async` block as last expression, an `async` block as
+    first argument, and a call of an inner `async fn` found by `fun.sig.ident == func_name`."""
+    r = {"suffix": None, "idents": False, "tail_async_block": False, "helper_call": False}
+    ff = rsparse.fns_in(ex).get("from_fn", (None, None))[1]
+    pts = rsparse.fns_in(ex).get("path_to_string", (None, None))[1]
+    if ff is None or pts is None:
+        unrec.append("from_fn / path_to_string not found")
+        return r
+    n = rsparse.norm(ff)
+    m = re.search(r'let path = match outside_func\.as_ref\(\) \{ Expr::Path\(path\) => &path\.path, _ => return None, \}; '
+                  r'if !path_to_string\(path\)\.ends_with\("([^"]*)"\) \{ return None; \}', n)
+    if m and "is_box_pin" not in n:
+        r["suffix"] = m.group(1)
+    else:
+        unrec.append("from_fn: the tail call's callee is not tested with path_to_string(path).ends_with(\"..\")")
+    pn = rsparse.norm(pts)
+    r["idents"] = ('write!(&mut res, "{}", path.segments[i].ident)' in pn and 'res.push_str("::")' in pn
+                   and "for i in 0..path.segments.len()" in pn and "if i < path.segments.len() - 1" in pn)
+    if not r["idents"]:
+        unrec.append("path_to_string: not `segment identifiers joined by ::`")
+    r["tail_async_block"] = ("if let Expr::Async(async_expr) = last_expr {" in n and "pinned_box: false" in n
+                             and "if let Expr::Async(async_expr) = &outside_args[0] {" in n and "pinned_box: true" in n
+                             and "if input.sig.asyncness.is_some() { return None; }" in n)
+    if not r["tail_async_block"]:
+        unrec.append("from_fn: async-block tail / argument recognition")
+    r["helper_call"] = ("let func_name = match **func { Expr::Path(ref func_path) => path_to_string(&func_path.path), _ => return None, };" in n
+                        and ".find(|(_, fun)| fun.sig.ident == func_name)?" in n and "kind: AsyncKind::Function(func)" in n
+                        and "if fun.sig.asyncness.is_some() { return Some((stmt, fun)); }" in n)
+    if not r["helper_call"]:
+        unrec.append("from_fn: inner async fn call recognition")
+    return r
+
+
 def read_sources(repo):
     ex = rsparse.strip_comments(open(os.path.join(repo, EXPAND)).read())
     at = rsparse.strip_comments(open(os.path.join(repo, ATTR)).read())
@@ -730,6 +765,7 @@ def translate(repo):
     if not tm:
         unrec.append("attr.rs: InstrumentArgs::target default")
     out["tables"] = tables_from(ex, at, unrec)
+    out["box_pin"] = box_pin_rule(ex, unrec)
     lib = rsparse.strip_comments(open(os.path.join(repo, LIB)).read())
     out["name_sources"], out["name_facts"] = name_sources(ex, lib, unrec)
     out["unrec"] = unrec
@@ -890,6 +926,15 @@ def render(out):
     L.append("  | PSelf => %s                                  (* FnArg::Receiver *)" % ("(Some PRDebug)" if t.get("receiver_debug") else "None"))
     L.append("  | PWild => %s                                  (* `_ =>` *)" % pr("_"))
     L.append("  end.")
+    bp = out.get("box_pin") or {}
+    L.append("")
+    L.append("(** AsyncInfo::from_fn: how the tail call of a fn returning a boxed future is recognised *)")
+    L.append("Definition gen_box_pin_suffix : option string := %s.   (* path_to_string(callee).ends_with(..) *)"
+             % coq_opt(rsparse.coq_str(bp["suffix"]) + "%string" if bp.get("suffix") is not None else None))
+    L.append("Definition gen_path_to_string_idents : bool := %s.   (* segment identifiers joined by `::`: no leading ::, no generic arguments *)"
+             % ("true" if bp.get("idents") else "false"))
+    L.append("Definition gen_tail_async_block : bool := %s." % ("true" if bp.get("tail_async_block") else "false"))
+    L.append("Definition gen_tail_helper_call : bool := %s." % ("true" if bp.get("helper_call") else "false"))
     ns = out.get("name_sources") or {}
     nf = out.get("name_facts") or {}
     L.append("")
